@@ -319,6 +319,12 @@ func c11Contents() map[string]*c11Content {
 			"d/1-cert.pem": a1.certPEM, "d/1-key.pem": a1.keyPEM,
 			"d/2-cert.pem": a2.certPEM, "d/2-key.pem": a2.keyPEM,
 		}, want: [][]byte{a1.cert.Certificate[0], a2.cert.Certificate[0]}},
+		// Ar: the files of A with the names of the two certificates exchanged (CertStore!Renamed):
+		// the same four PEM blocks, the other certificate is now first = the default
+		"Ar": {files: map[string][]byte{
+			"d/1-cert.pem": a2.certPEM, "d/1-key.pem": a2.keyPEM,
+			"d/2-cert.pem": a1.certPEM, "d/2-key.pem": a1.keyPEM,
+		}, want: [][]byte{a2.cert.Certificate[0], a1.cert.Certificate[0]}},
 		// B: another order, a combined file, three certificates
 		"B": {files: map[string][]byte{
 			"d/a.pem":      join(b1.certPEM, b1.keyPEM),
